@@ -169,7 +169,10 @@ def step (st : St) (ws : List String) (j : Json) : St × String :=
         let fm := fsMuts muts
         KM.Fault.Fs.firstBad (fsInitial fm) fm 0
       else none
-    if let some i := fsBad then
+    -- a cut at which the files on disk are already inconsistent is reported as that (the
+    -- concrete failing cut); the order breach alone is reported for the other cuts
+    let diskBad := !(jarr (jget j "rrdp_disk_at_cut")).isEmpty
+    if let (some i, false) := (fsBad, diskBad) then
       (st, s!"FAIL model file-system order: mutation {i} ({muts.getD i "?"}) breaks the writer's discipline (commit only what is written, remove only what the notification does not name)")
     else
     match predLogged with
